@@ -972,4 +972,161 @@ example : expandedBitDepthTo8 ⟨⟨3, 1, .gray (some 2), 2, false⟩, [0b100111
 example : reducedBitDepth8OrLess ⟨⟨3, 1, .gray (some 0x55), 8, false⟩, [0xAA, 0x55, 0xFF]⟩ =
     some ⟨⟨3, 1, .gray (some 1), 2, false⟩, [0b10011100]⟩ := by decide
 
+/-! ### the co-occurrence palette sorters: their shared final steps -/
+
+/-- the `byte_map` loop: for a remapping without repetitions, entry `r[k]` of the table ends up as `k`
+    (everything else keeps its value) -/
+theorem byteMap_fold : ∀ (r : List Nat) (s : Nat) (m m' : List Nat),
+    (r.zipIdx s).foldlM (fun (m : List Nat) (p : Nat × Nat) =>
+      if p.1 < 256 then some (m.set p.1 (p.2 % 256)) else none) m = some m' →
+    r.Nodup → m.length = 256 →
+    m'.length = 256 ∧ (∀ k (hk : k < r.length), m'[r[k]]? = some ((s + k) % 256)) ∧
+      (∀ v, v ∉ r → m'[v]? = m[v]?) := by
+  intro r
+  induction r with
+  | nil =>
+    intro s m m' h _ hm
+    simp only [List.zipIdx_nil, List.foldlM_nil] at h
+    cases h
+    exact ⟨hm, fun k hk => absurd hk (by simp), fun _ _ => rfl⟩
+  | cons v0 rest ih =>
+    intro s m m' h hnd hm
+    simp only [List.zipIdx_cons, List.foldlM_cons] at h
+    by_cases hv : v0 < 256
+    · simp only [hv, if_true] at h
+      have hnd' := List.nodup_cons.mp hnd
+      obtain ⟨hl, hk, hrest⟩ := ih (s + 1) (m.set v0 (s % 256)) m' h hnd'.2 (by simp [hm])
+      refine ⟨hl, ?_, ?_⟩
+      · intro k hkl
+        cases k with
+        | zero =>
+          simp only [List.getElem_cons_zero, Nat.add_zero]
+          rw [hrest v0 hnd'.1, List.getElem?_set_self (by omega)]
+        | succ k =>
+          simp only [List.getElem_cons_succ]
+          have := hk k (by simpa using hkl)
+          rw [this]
+          congr 2
+          omega
+      · intro v hv'
+        have hne : v0 ≠ v := fun e => hv' (by rw [e]; exact List.mem_cons_self)
+        have hnr : v ∉ rest := fun hm' => hv' (List.mem_cons_of_mem _ hm')
+        rw [hrest v hnr, List.getElem?_set_ne hne]
+    · simp only [hv, if_false] at h
+      cases h
+
+/-- **Applying a palette permutation is lossless for the whole image** - the step every co-occurrence
+    sorter (`sorted_palette_mzeng`, `sorted_palette_battiato`) ends with: for ANY remapping without
+    repetitions that contains every index the image uses (at most 256 entries), the new palette entry at
+    each remapped index is the colour the old index had.  Entries beyond the palette make the real code
+    panic (`none` in the model), never return a wrong picture. -/
+theorem palette_reorder_lossless (i j : Img) (palette : List Rgba) (remapping : List Nat)
+    (hc : i.ihdr.ct = .indexed palette) (hd : i.ihdr.depth = 8)
+    (hnd : remapping.Nodup) (hlen : remapping.length ≤ 256)
+    (huse : ∀ b ∈ i.data, b.toNat ∈ remapping)
+    (h : applyPaletteReorder i remapping = some (some j)) : samePicture i j := by
+  unfold applyPaletteReorder at h
+  simp only [hc] at h
+  split at h
+  · cases h
+  · split at h
+    · cases h
+    · rename_i hall
+      have hall' : (remapping.all fun v => decide (v < palette.length)) = true := by
+        cases hq : (remapping.all fun v => decide (v < palette.length)) with
+        | true => rfl
+        | false => rw [hq] at hall; exact absurd rfl hall
+      cases hbm : reorderByteMap remapping with
+      | none => simp [hbm] at h
+      | some byteMap =>
+        simp only [hbm, Option.some.injEq] at h
+        subst h
+        unfold reorderByteMap at hbm
+        obtain ⟨hl, hk, _⟩ := byteMap_fold remapping 0 _ byteMap hbm hnd List.length_replicate
+        refine ⟨rfl, rfl, rfl, ?_⟩
+        have hib : i.bppBytes = 1 := by
+          simp [Img.bppBytes, Img.bytesPerChannel, Img.channelsPerPixel, hd, hc, ColorType.channels]
+        have hjb : Img.bppBytes ⟨⟨i.ihdr.width, i.ihdr.height,
+            .indexed (remapping.map fun v => palette.getD v ⟨0, 0, 0, 255⟩), i.ihdr.depth, i.ihdr.interlaced⟩,
+            i.data.map fun b => UInt8.ofNat (byteMap.getD b.toNat 0)⟩ = 1 := by
+          simp [Img.bppBytes, Img.bytesPerChannel, Img.channelsPerPixel, hd, ColorType.channels]
+        simp only [pixelColours, storagePixels, hib, chunksExact_one, List.map_map, hc]
+        rw [hjb, chunksExact_one, List.map_map, List.map_map]
+        apply List.map_congr_left
+        intro b hb
+        -- position of the old index in the remapping
+        obtain ⟨k, hkl, hkb⟩ := List.getElem_of_mem (huse b hb)
+        have hmk := hk k hkl
+        rw [hkb, Nat.zero_add, Nat.mod_eq_of_lt (by omega)] at hmk
+        have hvlt : b.toNat < palette.length := by
+          have := List.all_eq_true.mp hall' b.toNat (huse b hb)
+          simpa using this
+        simp only [Function.comp, samplesOf, hd, if_neg (by decide : ¬ ((8 : Nat) = 16)),
+          List.map_cons, List.map_nil, colourOf_indexed_getD]
+        rw [getD_of_getElem? _ _ _ _ hmk, ofNat_toNat_lt k (by omega)]
+        have hnew : (remapping.map fun v => palette.getD v ⟨0, 0, 0, 255⟩)[k]? =
+            some (palette.getD b.toNat ⟨0, 0, 0, 255⟩) := by
+          rw [List.getElem?_map, List.getElem?_eq_getElem hkl, hkb]; rfl
+        rw [getD_of_getElem? _ _ _ _ hnew]
+        rw [List.getD_eq_getElem?_getD, List.getD_eq_getElem?_getD, List.getElem?_eq_getElem hvlt]
+        rfl
+
+theorem drop_append_take_perm {α} (l : List α) (n : Nat) : (l.drop n ++ l.take n).Perm l := by
+  have := List.perm_append_comm (l₁ := l.drop n) (l₂ := l.take n)
+  rw [List.take_append_drop] at this
+  exact this
+
+theorem rotateLeft_perm_own {α} (l : List α) (n : Nat) : (l.rotateLeft n).Perm l := by
+  unfold List.rotateLeft
+  simp only
+  split
+  · exact List.Perm.refl _
+  · exact drop_append_take_perm l _
+
+theorem rotateRight_perm_own {α} (l : List α) (n : Nat) : (l.rotateRight n).Perm l := by
+  unfold List.rotateRight
+  simp only
+  split
+  · exact List.Perm.refl _
+  · exact drop_append_take_perm l _
+
+/-- **Moving the most popular colour to the front only rearranges the remapping**: whatever it does
+    (nothing, a rotation, a reversal and a rotation) the result has the same entries, each as often. -/
+theorem most_popular_perm (data : Bytes) (r r' : List Nat) (h : applyMostPopularColor data r = some r') :
+    r'.Perm r := by
+  unfold applyMostPopularColor at h
+  simp only at h
+  split at h
+  · cases h; exact List.Perm.refl _
+  · split at h
+    · cases h
+    · split at h
+      · cases h
+        exact (rotateRight_perm_own _ _).trans (List.reverse_perm _)
+      · cases h
+        exact rotateLeft_perm_own _ _
+
+/-- **A co-occurrence sorter is lossless whenever the order it computed is a rearrangement of the
+    palette's indices** (the order heuristics themselves - Zeng's and Battiato's - are not modelled:
+    that their output is such a rearrangement is observed on every generated case, not proved). -/
+theorem cooccurrence_sorter_lossless (i j : Img) (palette : List Rgba) (order : List Nat)
+    (hc : i.ihdr.ct = .indexed palette) (hd : i.ihdr.depth = 8)
+    (hnd : order.Nodup) (hlen : order.length ≤ 256) (huse : ∀ b ∈ i.data, b.toNat ∈ order)
+    (h : reorderWith i order = some (some j)) : samePicture i j := by
+  unfold reorderWith at h
+  cases hp : applyMostPopularColor i.data order with
+  | none => simp [hp] at h
+  | some r =>
+    simp only [hp] at h
+    have hperm := most_popular_perm i.data order r hp
+    exact palette_reorder_lossless i j palette r hc hd (hperm.nodup_iff.mpr hnd)
+      (by rw [hperm.length_eq]; exact hlen) (fun b hb => hperm.mem_iff.mpr (huse b hb)) h
+
+/-- Non-vacuity: a 2x2 image over a three-colour palette, order [2, 0, 1] -/
+example :
+    let i : Img := ⟨⟨2, 2, .indexed [⟨1, 1, 1, 255⟩, ⟨2, 2, 2, 255⟩, ⟨3, 3, 3, 255⟩], 8, false⟩, [0, 1, 2, 2]⟩
+    reorderWith i [2, 0, 1] =
+      some (some ⟨⟨2, 2, .indexed [⟨3, 3, 3, 255⟩, ⟨1, 1, 1, 255⟩, ⟨2, 2, 2, 255⟩], 8, false⟩, [1, 2, 0, 0]⟩) := by
+  decide
+
 end OxiModel.C01
